@@ -367,8 +367,9 @@ func (o *OperationNormalizer) setupOperationWalkers() {
 		// the default value of an absent variable has to be in the variables
 		// before the lists are coerced, otherwise it is left uncoerced
 		extractVariablesDefaultValue(&variablesProcessing)
-		inputCoercionForList(&variablesProcessing)
+		// the same holds for the defaults of input fields: they are injected first
 		injectInputFieldDefaults(&variablesProcessing)
+		inputCoercionForList(&variablesProcessing)
 
 		o.operationWalkers = append(o.operationWalkers, walkerStage{
 			name:   "variablesProcessing",
